@@ -127,6 +127,11 @@ impl LeastSquaresProblem<f64, Dyn, U6> for PointsToMesh<'_> {
     fn set_params(&mut self, x: &Vector<f64, U6, Self::ParameterStorage>) {
         self.params.set(x);
         self.move_points();
+        #[cfg(engeom_verif)]
+        crate::verif_trace::emit(format!(
+            "{{\"ev\":\"set\",\"x\":{}}}",
+            crate::verif_trace::floats(self.params.x.as_slice())
+        ));
     }
 
     fn params(&self) -> Vector<f64, U6, Self::ParameterStorage> {
@@ -142,6 +147,13 @@ impl LeastSquaresProblem<f64, Dyn, U6> for PointsToMesh<'_> {
             };
         }
 
+        #[cfg(engeom_verif)]
+        crate::verif_trace::emit(format!(
+            "{{\"ev\":\"res\",\"x\":{},\"r\":{}}}",
+            crate::verif_trace::floats(self.params.x.as_slice()),
+            crate::verif_trace::floats(res.as_slice())
+        ));
+
         Some(res)
     }
 
@@ -155,6 +167,12 @@ impl LeastSquaresProblem<f64, Dyn, U6> for PointsToMesh<'_> {
             };
             copy_jacobian(&values, &mut jac, i);
         }
+
+        #[cfg(engeom_verif)]
+        crate::verif_trace::emit(format!(
+            "{{\"ev\":\"jac\",\"x\":{}}}",
+            crate::verif_trace::floats(self.params.x.as_slice())
+        ));
 
         Some(jac)
     }
